@@ -301,3 +301,4 @@ Proof.
     + destruct ch; destruct (mbox st k) eqn:Hm; try exact A; destruct A; constructor; acct_fields.
   - (* WConsumeShard *) destruct A; constructor; acct_fields.
   - (* WConsume *) Show.
+Show. 
